@@ -201,14 +201,15 @@ def _worker(job):
             if st.status == 'unsupported':
                 res['unsupported'].append(str(st.result))
                 continue
-            if st.status in ('assertfail', 'panic') or (st.status == 'ok' and st.flags):
+            evflags = [f for f in st.flags if f[0] in ('write-to-input', 'global-write')]
+            if st.status in ('assertfail', 'panic') or (st.status == 'ok' and evflags):
                 kinds = []
                 if st.status == 'assertfail':
                     kinds.append(('assert', st.result[0], st.result[1]))
                 elif st.status == 'panic':
                     kinds.append(('panic', st.result[0], st.result[1]))
                 else:
-                    for fk, fs in sorted(st.flags):
+                    for fk, fs in sorted(evflags):
                         kinds.append(('event', fk + ': ' + fs, ''))
                 verdict, assign = ses.model_for(st)
                 for kind, what, pos in kinds:
